@@ -232,6 +232,16 @@ func (g *gen) src(asset string, d int, ctx *srcCtx, sendAll bool, capped bool) J
 			if !c.unspecified && !c.varBounds {
 				// keep the bound non-negative: a literal non-negative number
 				b = eMon(eAsset(asset), eNum(absInt(g.num())))
+				if c.infix && r.Intn(3) == 0 {
+					// ... or a sum of non-negative monetaries, a variable on the left when there is one
+					var left J = eMon(eAsset(asset), eNum(absInt(g.num())))
+					for _, v := range g.vars {
+						if v["type"] == "monetary" && v["usable"] == true && v["val"].(J)["a"] == asset && v["val"].(J)["v"].(int) >= 0 {
+							left = eVar(v["name"].(string))
+						}
+					}
+					b = eInfix("+", left, eMon(eAsset(asset), eNum(absInt(g.num()))))
+				}
 			}
 			ctx.used[name] = true
 			return J{"k": "ovd", "e": e, "b": b}
@@ -410,16 +420,34 @@ func (g *gen) declareVars(c *Case) {
 				if c.Meta[macc] == nil {
 					c.Meta[macc] = map[string]string{}
 				}
-				c.Meta[macc][key] = valText(val)
+				c.Meta[macc][key] = zeroPad(r, val)
 			}
 		default:
-			c.RawVars[name] = valText(val)
+			c.RawVars[name] = zeroPad(r, val)
 		}
 		c.VarVals[name] = val
 		d := J{"type": t, "name": name, "origin": origin}
 		c.Decls = append(c.Decls, d)
 		g.vars = append(g.vars, J{"type": t, "name": name, "val": val, "usable": usable})
 	}
+}
+
+// the decimal text of a number / monetary, sometimes spelled with leading zeros (still base ten)
+func zeroPad(r *rand.Rand, val J) string {
+	if r.Intn(6) != 0 {
+		return valText(val)
+	}
+	switch val["t"] {
+	case "num":
+		if n, ok := val["v"].(int); ok && n >= 0 {
+			return fmt.Sprintf("0%d", n)
+		}
+	case "mon":
+		if n, ok := val["v"].(int); ok && n >= 0 {
+			return fmt.Sprintf("%s 00%d", val["a"], n)
+		}
+	}
+	return valText(val)
 }
 
 func (g *gen) balances(c *Case) {
@@ -555,6 +583,7 @@ func corpusCfg(name string) genCfg {
 		base.sendAllRate = 4
 		base.dsts = []string{"x", "y", "a", "b", "world"}
 		base.portionVars = true
+		base.infix = true
 	case "save": // C08: saves among probing sends
 		base.maxVars, base.maxStmts = 2, 5
 		base.wSend, base.wSave, base.wTx, base.wAm = 5, 5, 0, 0
@@ -562,6 +591,7 @@ func corpusCfg(name string) genCfg {
 		base.srcDepth, base.dstDepth = 1, 1
 		base.dsts = []string{"x", "y", "a"}
 		base.nums = []int{0, 1, 2, 3, 4, 5, 7, 8, 10, 12, 20, 30}
+		base.infix = true
 	case "exact": // C03
 		base.sendAllRate = 0
 		base.maxVars = 2
